@@ -199,9 +199,45 @@ class Realisation:
             self.T += vals
             self.tlevel += [i + 1] * len(vals)
         self.nu_of_level = nu_of_level
+        # memory layouts (cfg.fl / cfg.wl / cfg.el): same VALUES, different buffers
+        self.fl, self.wl, self.el = cfg.get("fl", "c"), cfg.get("wl", "int64"), cfg.get("el", "c")
+        if self.fl == "float32":          # values rounded to binary32 first, so that the values are what is compared
+            f32 = lambda v: float(np.float32(v))  # noqa: E731
+            self.freqs = np.vectorize(f32)(self.freqs).astype(float)
+            self.nu_of_level = lambda L, nu=nu_of_level: f32(nu(L))
+            if self.cutoff is not None and self.cutoff > 0:
+                self.cutoff = f32(self.cutoff)
 
     def mesh(self):
-        return make_mesh(self.freqs, self.weights, self.eig)
+        m = make_mesh(self.freqs, self.weights, self.eig)
+        nq, nb = self.freqs.shape
+        if self.fl == "f":
+            m.frequencies = np.asfortranarray(self.freqs)
+        elif self.fl == "strided":
+            big = np.full((2 * nq, 3 * nb), 123.456)
+            big[::2, ::3] = self.freqs
+            m.frequencies = big[::2, ::3]
+        elif self.fl == "float32":
+            m.frequencies = self.freqs.astype("float32")
+        w = np.array(self.weights, dtype="int64")
+        if self.wl == "uint64":
+            m.weights = w.astype("uint64")
+        elif self.wl == "intc":
+            buf = np.zeros(2 * nq + 4, dtype="intc")
+            buf[:nq] = w
+            m.weights = buf[:nq]
+        elif self.wl == "strided":
+            buf = np.full(2 * nq, 7, dtype="int64")
+            buf[::2] = w
+            m.weights = buf[::2]
+        if self.eig is not None:
+            if self.el == "f":
+                m.eigenvectors = np.asfortranarray(self.eig)
+            elif self.el == "strided":
+                big = np.full((nq, 2 * nb, 2 * nb), 0.3 + 0.4j)
+                big[:, ::2, ::2] = self.eig
+                m.eigenvectors = big[:, ::2, ::2]
+        return m
 
     def run(self, lang):
         c = self.cfg
